@@ -34,6 +34,7 @@ pub fn spec_for3(property: &str) -> Option<CheckSpec> {
             property: "C08".into(),
             level: "exploration",
             profiles: vec![p("conc", 10), p("conc-burst", 2), p("conc-big", 1)],
+            thorough_extra: vec![],
             quick_runs: 6_000,
             thorough_runs: 300_000,
             quick_budget_s: 90,
@@ -49,6 +50,7 @@ pub fn spec_for3(property: &str) -> Option<CheckSpec> {
                 property: "C13".into(),
                 level: "exploration",
                 profiles: vec![p("live", 1)],
+                thorough_extra: vec![],
                 quick_runs: 8_000,
                 thorough_runs: 400_000,
                 quick_budget_s: 60,
@@ -63,6 +65,7 @@ pub fn spec_for3(property: &str) -> Option<CheckSpec> {
             property: "C16".into(),
             level: "fault_enumeration",
             profiles: vec![p("tools", 1)],
+            thorough_extra: vec![p("tools-full", 1)],
             quick_runs: 1_500,
             thorough_runs: 60_000,
             quick_budget_s: 75,
